@@ -159,3 +159,12 @@ package orefafs
 //@ func (*OrefaFS).removeAll
 //@   ranges
 //@   requires[C08] wheld(vfs.mu) && rootNode != nil
+
+// The walks towards the first existing ancestor terminate: every step shortens the path
+// (a path on a missing volume used to spin forever on the empty string).
+//@ func (*OrefaFS).Mkdir
+//@   loop 0 decreases len(dirName)
+//@ func (*OrefaFS).Remove
+//@   loop 0 decreases len(dirName)
+//@ func (*OrefaFS).MkdirAll
+//@   loop 0 decreases len(dirName)
